@@ -535,7 +535,7 @@ pub fn run(ctx: &Ctx) {
     }
 
     // ---- (3) multiscalar in all size regimes
-    let sizes: Vec<usize> = if quick { vec![0, 1, 2, 3, 4, 8, 189, 190, 191] } else { vec![0, 1, 2, 3, 4, 5, 8, 16, 33, 64, 189, 190, 191, 499, 500, 501, 799, 800, 801, 1000] };
+    let sizes: Vec<usize> = if quick { vec![0, 1, 2, 3, 4, 8, 189, 190, 191, 499, 500, 800, 801] } else { vec![0, 1, 2, 3, 4, 5, 8, 16, 33, 64, 189, 190, 191, 499, 500, 501, 799, 800, 801, 1000] };
     ctx.bound("multiscalar_sizes", json!(sizes));
     let mpts = pool(if quick { 4 } else { 8 }, true);
     let free: Vec<Known> = mpts.iter().filter(|k| k.aj.as_ref().unwrap().1 == 0).cloned().collect();
